@@ -105,7 +105,7 @@ def run(ctx):
 
 
 def replay(ctx, rep):
-    sc.replay_case(ctx, rep, CLAUSES)
+    sc.replay_case(ctx, rep, CLAUSES, extra_sig=shape)
 
 
 if __name__ == "__main__":
